@@ -33,23 +33,62 @@ structure Parsed where
   pfx : Option Str := none
   settings : Option Str := none
   excludes : List Str := []
+  filesDone : Bool := false      -- an option came after the input paths: `files` (nargs='+') takes ONE contiguous run of positionals
 deriving Repr, DecidableEq
 
-/-- the options of `main` (long and short spellings; abbreviations of long options are not modelled).
-    `none` = argparse would exit with a usage error (option without its value, unknown option). -/
+/-- the option strings of `main`'s parser that the model decides (`-h`, `--help` and `--version` exit at once and are not modelled) -/
+def knownOpts : List Str :=
+  [lit "-o", lit "--output", lit "-r", lit "--recursive", lit "-p", lit "--prefix", lit "-s", lit "--settings", lit "-e", lit "--exclude"]
+
+def isDigitC (c : Char) : Bool := '0' ≤ c && c ≤ '9'
+
+/-- argparse's `_negative_number_matcher` `^-\d+$|^-\d*\.\d+$`: such a token is a positional / a value, the parser having no
+    option that looks like a negative number -/
+def isNegNumber : Str → Bool
+  | '-' :: r =>
+    (!r.isEmpty && r.all isDigitC) ||
+    (match r.dropWhile isDigitC with
+     | '.' :: b => !b.isEmpty && b.all isDigitC
+     | _ => false)
+  | _ => false
+
+/-- `_parse_optional` says "meant to be an option" for a token that is none of the parser's option strings: it starts with `-`, has
+    more than one character, is no negative number and contains no blank.  argparse then tries abbreviations (`--out`), attached
+    values (`-ofoo`, `--output=foo`) and bundles (`-re`): none of that is modelled, such a command line is `unsupported` -/
+def dashy (a : Str) : Bool := a.head? == some '-' && a.length > 1 && !isNegNumber a && !a.contains ' '
+
+/-- the command lines the model decides: every token is one of the option strings or plainly not an option -/
+def argvSupported (argv : List Str) : Bool := argv.all (fun a => knownOpts.contains a || !dashy a)
+
+/-- argparse classifies the token as an option: it cannot be the value of an option that takes one (`nargs=None`) -/
+def optLike (v : Str) : Bool := knownOpts.contains v || dashy v
+
+/-- the options of `main` on a supported command line.  `none` = argparse exits with a usage error: an option without its value
+    (also when the next token is itself an option), no input path, or input paths in two places (`a -r b`: `files` is filled from one
+    contiguous run, the later ones are "unrecognized arguments") -/
 def parseArgv : List Str → Parsed → Option Parsed
   | [], p => if p.files.isEmpty then none else some p
   | a :: rest, p =>
-    if a = lit "-r" ∨ a = lit "--recursive" then parseArgv rest { p with recursive := true }
+    let p' : Parsed := if p.files.isEmpty then p else { p with filesDone := true }
+    if a = lit "-r" ∨ a = lit "--recursive" then parseArgv rest { p' with recursive := true }
     else if a = lit "-o" ∨ a = lit "--output" then
-      match rest with | v :: rest' => parseArgv rest' { p with output := some v } | [] => none
+      match rest with
+      | v :: rest' => if optLike v then none else parseArgv rest' { p' with output := some v }
+      | [] => none
     else if a = lit "-p" ∨ a = lit "--prefix" then
-      match rest with | v :: rest' => parseArgv rest' { p with pfx := some v } | [] => none
+      match rest with
+      | v :: rest' => if optLike v then none else parseArgv rest' { p' with pfx := some v }
+      | [] => none
     else if a = lit "-s" ∨ a = lit "--settings" then
-      match rest with | v :: rest' => parseArgv rest' { p with settings := some v } | [] => none
+      match rest with
+      | v :: rest' => if optLike v then none else parseArgv rest' { p' with settings := some v }
+      | [] => none
     else if a = lit "-e" ∨ a = lit "--exclude" then
-      match rest with | v :: rest' => parseArgv rest' { p with excludes := p.excludes ++ [v] } | [] => none
-    else if a.head? = some '-' ∧ a.length > 1 then none
+      match rest with
+      | v :: rest' => if optLike v then none else parseArgv rest' { p' with excludes := p'.excludes ++ [v] }
+      | [] => none
+    else if dashy a then none
+    else if p.filesDone then none
     else parseArgv rest { p with files := p.files ++ [a] }
 
 /-- `COMMAND_ERROR_IS_FATAL ANY`: the CMake call fails fatally iff the child's exit status is non-zero -/
